@@ -483,7 +483,10 @@ def s_depth(F, res):
             else:
                 res.add([finding("S-DEPTH", key, w, "local expressions are re-tracked and re-analysed a bounded number of times (%s) and nothing makes acceptance depend on is_resolved(): a chain of references between locals longer than the number of passes leaves an unresolved identifier inside the stored clone, the report is clean and the lowering fails with MissingAnalyzePhase" % how)])
     res.count("pass loops over tracked local expressions", n)
-    res.floor("pass loops over tracked local expressions", n, 1)
+    if n == 0:
+        # the passes may be driven by an iterator combinator (`(0..9).fold(scope, |s, _| pass(s, tx))`): no loop in the MIR of
+        # the analyzer then; the depth rule has nothing to read and says so
+        res.add([assumption("S-DEPTH", "tx3_lang::analyzing|pass loop over tracked local expressions", "crates/tx3-lang/src/analyzing.rs", "no loop re-tracks and re-analyses local expressions in the analyzer's own control flow (the passes may be driven by an iterator combinator): resolution depth not decided")])
 
 
 _KEEP = []
